@@ -2,7 +2,7 @@
     [S] is any set of positions in which the byte determines the position (the canonical
     positions of one text: [C17_canonical_positions_chain]). Only statements, closed by
     [exact]; proofs are in theories/SpanFacts.v. *)
-From Tephra Require Import Span SpanFacts.
+From Tephra Require Import Span SpanFacts MetricsSpec MetricsFacts.
 
 Theorem C17_enclose :
   forall S, Chain S -> forall a0 a1 b0 b1, S a0 -> S a1 -> S b0 -> S b1 ->
@@ -73,3 +73,10 @@ Theorem C17_nonvacuous :
     /\ few_list (minus (mkspan a0 a1) (mkspan b0 b1)) = [mkspan a0 b0; mkspan b1 a1].
 Proof. exact chain_example. Qed.
 Print Assumptions C17_nonvacuous.
+
+(** The canonical positions of any text form a chain, so the theorems above apply to every
+    pair of spans whose endpoints are canonical positions of one text. *)
+Theorem C17_canonical_positions_chain :
+  forall m t, 1 <= tabw m -> wf_text t -> Chain (MetricsSpec.Canon m t).
+Proof. exact MetricsFacts.canon_chain. Qed.
+Print Assumptions C17_canonical_positions_chain.
